@@ -60,6 +60,15 @@ def cases(tier, seed, shard, nshards):
                              npipes=rng.randint(2, 6), nops=rng.choice([3, 4, 5, 6]))
     if tier == "thorough" and shard < 4:
         yield _sim.regression_case(shard)
+    # scale cases: large in one dimension (one per shard for the first shards; all of them, twice, in the thorough tier)
+    _kinds = ["crowd", "many-small", "storm"]
+    for _j, _kd in enumerate(_kinds * (1 if tier == "quick" else 2)):
+        if tier == "thorough" or _j == shard:
+            _k, _, _a = _kd.partition(":")
+            yield _sim.scale_case(rng, _k, algo=_a or None)
+    if tier == "thorough":
+        for _k in range(2):
+            yield _sim.long_sim_case(rng, algos=_sim.ALGOS_PLUS)
 
 
 def check_dag_range(case, mon):
